@@ -414,6 +414,8 @@ impl<'a> G<'a> {
                             1 => block.push(0x84),                                // :path in a response
                             2 => block.extend(lit(b"connection", b"close")),      // connection-specific field
                             3 => block.extend(lit(b"te", b"gzip")),               // TE other than trailers
+                            12 => block.extend([lit(b"te", b"trailers"), lit(b"te", b"gzip")].concat()), // … in a second TE field
+                            13 => block.extend(lit(b"te", b"trailers")),          // fine
                             4 => block.extend(lit(b"content-length", b"7")),      // body will (very probably) disagree
                             5 => block.extend(lit(b"content-length", b"0")),
                             9 => block.extend([lit(b"content-length", b"5"), lit(b"content-length", b"7")].concat()), // conflicting
@@ -574,6 +576,9 @@ impl<'a> G<'a> {
                     3 => block.push(0x88),                                              // :status in a request
                     4 => block.extend_from_slice(&[0x00, 0x0a, b'c', b'o', b'n', b'n', b'e', b'c', b't', b'i', b'o', b'n', 0x01, b'x']),
                     5 => block.extend_from_slice(&[0x00, 0x02, b't', b'e', 0x04, b'g', b'z', b'i', b'p']),
+                    11 => block.extend_from_slice(&[0x00, 0x02, b't', b'e', 0x08, b't', b'r', b'a', b'i', b'l', b'e', b'r', b's',
+                                                    0x00, 0x02, b't', b'e', 0x04, b'g', b'z', b'i', b'p']), // bad TE in a second field
+                    12 => block.extend_from_slice(&[0x00, 0x02, b't', b'e', 0x08, b't', b'r', b'a', b'i', b'l', b'e', b'r', b's']), // fine
                     6 => block.push(0x82),                                              // duplicated :method
                     7 => block = vec![0x82, 0x86, 0x04, 0x00, 0x41, 0x01, b'a'],        // empty :path
                     8 => block = vec![0x82, 0x86],                                      // :method, :scheme and nothing else
